@@ -20,6 +20,7 @@ type loopInfo struct {
 	latches []*ssa.BasicBlock
 	ordinal int
 	mods    *modSet
+	live    []ssa.Value
 }
 
 type frame struct {
@@ -44,6 +45,19 @@ type frame struct {
 	autos     map[*ssa.BasicBlock][]autoInv
 	autoDec   map[*ssa.BasicBlock][]autoInv
 	frameRule func(e *Engine, st *State, ref *smt.Term, kind string, pos string)
+	order     []*ssa.BasicBlock
+	incoming  map[*ssa.BasicBlock][]*inEdge
+	nextIter  map[*ssa.BasicBlock][]*inEdge
+	unrolling []*loopInfo // stack of loops currently being unrolled
+}
+
+// inEdge is one (possibly virtual, per unrolled iteration) control-flow edge arriving at a block.
+type inEdge struct {
+	from    *ssa.BasicBlock
+	cond    *smt.Term
+	st      *State
+	phiVals []Val             // operands of the target's phis along this edge
+	snap    map[ssa.Value]Val // live-out values of unrolled loops being left
 }
 
 type retPoint struct {
@@ -169,60 +183,11 @@ func (e *Engine) execFunc(fn *ssa.Function, args []Val, binds []Val, st *State, 
 	prevFrame := e.curFrame
 	e.curFrame = f
 	defer func() { e.curFrame = prevFrame }()
-	order := topoOrder(fn, f.back)
-	for _, b := range order {
-		var cur *State
-		if b.Index == 0 {
-			cur = st.clone()
-		} else {
-			var conds []*smt.Term
-			var states []*State
-			var preds []*ssa.BasicBlock
-			for _, p := range b.Preds {
-				if f.back[edge{p, b}] {
-					continue
-				}
-				c, ok := f.econd[edge{p, b}]
-				if !ok {
-					continue // unreachable predecessor (not in order)
-				}
-				conds = append(conds, c)
-				states = append(states, f.exit[p])
-				preds = append(preds, p)
-			}
-			if len(states) == 0 {
-				continue
-			}
-			cur = e.merge(conds, states)
-			// phis
-			var phis []*ssa.Phi
-			for _, in := range b.Instrs {
-				phi, ok := in.(*ssa.Phi)
-				if !ok {
-					break
-				}
-				phis = append(phis, phi)
-			}
-			li := f.loops[b]
-			// entry values of phis
-			for _, phi := range phis {
-				var vs []Val
-				for _, p := range preds {
-					for j, pp := range b.Preds {
-						if pp == p {
-							vs = append(vs, e.retag(f.get(phi.Edges[j]), phi.Type()))
-							break
-						}
-					}
-				}
-				f.vals[phi] = e.mergeVals(conds, vs)
-			}
-			if li != nil {
-				e.loopHeader(f, li, b, phis, cur)
-			}
-		}
-		e.execBlock(f, b, cur)
-	}
+	f.order = topoOrder(fn, f.back)
+	f.incoming = map[*ssa.BasicBlock][]*inEdge{}
+	f.nextIter = map[*ssa.BasicBlock][]*inEdge{}
+	f.incoming[fn.Blocks[0]] = []*inEdge{{cond: st.Reach, st: st.clone()}}
+	e.runBlocks(f, f.order, nil)
 	// merge returns
 	if len(f.rets) == 0 {
 		// function never returns normally (always panics)
@@ -413,12 +378,10 @@ func (e *Engine) execInstr(f *frame, b *ssa.BasicBlock, in ssa.Instruction, st *
 		f.vals[x] = e.indexAddr(f, st, x, pos)
 	case *ssa.If:
 		cond := f.get(x.Cond).Terms[0]
-		f.econd[edge{b, b.Succs[0]}] = c.And(st.Reach, cond)
-		f.econd[edge{b, b.Succs[1]}] = c.And(st.Reach, c.Not(cond))
-		e.backEdges(f, b, st)
+		e.pushEdge(f, b, b.Succs[0], c.And(st.Reach, cond), st)
+		e.pushEdge(f, b, b.Succs[1], c.And(st.Reach, c.Not(cond)), st)
 	case *ssa.Jump:
-		f.econd[edge{b, b.Succs[0]}] = st.Reach
-		e.backEdges(f, b, st)
+		e.pushEdge(f, b, b.Succs[0], st.Reach, st)
 	case *ssa.Return:
 		var vs []Val
 		res := f.fn.Signature.Results()
@@ -625,15 +588,6 @@ func (e *Engine) sliceOp(f *frame, st *State, x *ssa.Slice, pos string) Val {
 	panic(reject("Slice on " + x.X.Type().String()))
 }
 
-// backEdges emits inv-step obligations for back edges leaving block b.
-func (e *Engine) backEdges(f *frame, b *ssa.BasicBlock, st *State) {
-	for _, s := range b.Succs {
-		if f.back[edge{b, s}] {
-			e.loopBackEdge(f, f.loops[s], b, s, st)
-		}
-	}
-}
-
 func (e *Engine) floatLit(v float64, w int) *smt.Term {
 	if w == 32 {
 		bits := uint64(float32bits(float32(v)))
@@ -641,4 +595,182 @@ func (e *Engine) floatLit(v float64, w int) *smt.Term {
 	}
 	bits := float64bits(v)
 	return e.C.Op("(_ to_fp 11 53)", smt.F64, e.C.BVLit(new(big.Int).SetUint64(bits), 64))
+}
+
+func blockPhis(b *ssa.BasicBlock) []*ssa.Phi {
+	var phis []*ssa.Phi
+	for _, in := range b.Instrs {
+		phi, ok := in.(*ssa.Phi)
+		if !ok {
+			break
+		}
+		phis = append(phis, phi)
+	}
+	return phis
+}
+
+// pushEdge records control flow from block from to block to under cond.
+func (e *Engine) pushEdge(f *frame, from, to *ssa.BasicBlock, cond *smt.Term, st *State) {
+	ed := &inEdge{from: from, cond: cond, st: st}
+	idx := -1
+	for j, p := range to.Preds {
+		if p == from {
+			idx = j
+		}
+	}
+	for _, phi := range blockPhis(to) {
+		ed.phiVals = append(ed.phiVals, e.retag(f.get(phi.Edges[idx]), phi.Type()))
+	}
+	if f.back[edge{from, to}] {
+		li := f.loops[to]
+		if n := f.unrollCount(li); n > 0 {
+			f.nextIter[to] = append(f.nextIter[to], ed)
+			return
+		}
+		e.loopBackEdge(f, li, from, to, st, cond)
+		return
+	}
+	// leaving unrolled loops: remember the values that are used after them
+	for _, li := range f.unrolling {
+		if !li.blocks[to] {
+			if ed.snap == nil {
+				ed.snap = map[ssa.Value]Val{}
+			}
+			for _, v := range li.liveOut() {
+				if val, ok := f.vals[v]; ok {
+					ed.snap[v] = val
+				}
+			}
+		}
+	}
+	f.incoming[to] = append(f.incoming[to], ed)
+}
+
+func (f *frame) unrollCount(li *loopInfo) int {
+	ct := f.ct
+	if ct == nil {
+		return 0
+	}
+	return ct.Unroll[li.ordinal]
+}
+
+// liveOut lists values defined inside the loop and used outside of it.
+func (li *loopInfo) liveOut() []ssa.Value {
+	if li.live != nil {
+		return li.live
+	}
+	li.live = []ssa.Value{}
+	for b := range li.blocks {
+		for _, in := range b.Instrs {
+			v, ok := in.(ssa.Value)
+			if !ok || v.Referrers() == nil {
+				continue
+			}
+			for _, r := range *v.Referrers() {
+				if !li.blocks[r.Block()] {
+					li.live = append(li.live, v)
+					break
+				}
+			}
+		}
+	}
+	return li.live
+}
+
+// runBlocks executes the given blocks (topologically ordered); skip marks blocks already handled by an unrolled loop.
+func (e *Engine) runBlocks(f *frame, order []*ssa.BasicBlock, within *loopInfo) {
+	done := map[*ssa.BasicBlock]bool{}
+	for _, b := range order {
+		if done[b] {
+			continue
+		}
+		if li := f.loops[b]; li != nil && li != within && f.unrollCount(li) > 0 {
+			e.runUnrolled(f, li, f.unrollCount(li))
+			for x := range li.blocks {
+				done[x] = true
+			}
+			continue
+		}
+		e.runBlock(f, b)
+	}
+}
+
+func (e *Engine) runBlock(f *frame, b *ssa.BasicBlock) {
+	in := f.incoming[b]
+	f.incoming[b] = nil
+	if len(in) == 0 {
+		return
+	}
+	var conds []*smt.Term
+	var states []*State
+	for _, ed := range in {
+		conds = append(conds, ed.cond)
+		states = append(states, ed.st)
+	}
+	cur := e.merge(conds, states)
+	phis := blockPhis(b)
+	for k, phi := range phis {
+		var vs []Val
+		for _, ed := range in {
+			vs = append(vs, ed.phiVals[k])
+		}
+		f.vals[phi] = e.mergeVals(conds, vs)
+	}
+	// values live out of unrolled loops that were just left
+	snapVals := map[ssa.Value]bool{}
+	for _, ed := range in {
+		for v := range ed.snap {
+			snapVals[v] = true
+		}
+	}
+	for v := range snapVals {
+		var vs []Val
+		var cs []*smt.Term
+		for _, ed := range in {
+			if val, ok := ed.snap[v]; ok {
+				vs = append(vs, val)
+				cs = append(cs, ed.cond)
+			}
+		}
+		if len(vs) > 0 {
+			f.vals[v] = e.mergeVals(cs, vs)
+		}
+	}
+	if li := f.loops[b]; li != nil && f.unrollCount(li) == 0 {
+		e.loopHeader(f, li, b, phis, cur)
+	}
+	e.execBlock(f, b, cur)
+}
+
+// runUnrolled executes a loop with a constant trip count by unrolling it n times; the unwinding assertion
+// (no further iteration is possible) is an obligation, so the unrolling is complete, not a bound.
+func (e *Engine) runUnrolled(f *frame, li *loopInfo, n int) {
+	var loopOrder []*ssa.BasicBlock
+	for _, b := range f.order {
+		if li.blocks[b] {
+			loopOrder = append(loopOrder, b)
+		}
+	}
+	f.unrolling = append(f.unrolling, li)
+	defer func() { f.unrolling = f.unrolling[:len(f.unrolling)-1] }()
+	h := li.header
+	for iter := 0; ; iter++ {
+		if len(f.incoming[h]) == 0 {
+			break
+		}
+		if iter == n+1 { // n full iterations plus the final evaluation of the loop condition
+			var conds []*smt.Term
+			for _, ed := range f.incoming[h] {
+				conds = append(conds, ed.cond)
+			}
+			st := f.incoming[h][0].st.clone()
+			st.Reach = e.C.Or(conds...)
+			e.oblige(st, "unwind", fmt.Sprintf("loop%d", li.ordinal), e.C.False(), posOfBlock(e, h), fmt.Sprintf("loop runs at most %d times (unrolled completely)", n))
+			f.incoming[h] = nil
+			break
+		}
+		f.nextIter[h] = nil
+		e.runBlocks(f, loopOrder, li)
+		f.incoming[h] = f.nextIter[h]
+	}
 }
